@@ -48,6 +48,12 @@ def scenarios():
         ('a/util.pn', 'pub fn which() -> i32\n{\n\treturn: 1\n}\n'), ('b/util.pn', 'pub fn other_which() -> i32\n{\n\treturn: 2\n}\n'),
         ('a/main.pn', user(['util.pn'], '\treturn: which()\n')), ('b/main.pn', user(['util.pn'], '\treturn: other_which()\n'))],
         {'a/util.pn': 'accept', 'b/util.pn': 'accept', 'a/main.pn': 'accept', 'b/main.pn': 'accept'}))
+    out.append(('the same file imported twice by one importer', [('util.pn', UTIL), ('main.pn', user(['util.pn', 'util.pn'], '\treturn: pubf() + PUBC\n'))],
+                {'util.pn': 'accept', 'main.pn': 'accept'}))
+    out.append(('the same file imported under two spellings', [('src/util.pn', UTIL), ('src/main.pn', user(['src/util.pn', 'util.pn'], '\treturn: pubf()\n'))],
+                {'src/util.pn': 'accept', 'src/main.pn': 'accept'}))
+    out.append(('mutual imports', [('a.pn', 'import "b.pn";\n\npub fn fa() -> i32\n{\n\treturn: 1\n}\n'), ('b.pn', 'import "a.pn";\n\npub fn fb() -> i32\n{\n\treturn: fa()\n}\n')],
+                {'a.pn': 'accept', 'b.pn': 'accept'}))
     return out
 
 
